@@ -118,14 +118,27 @@ def validList : List Wf → Bool
   | w :: ws => w.valid && validList ws
 end
 
+/-- `RampWaveform._slope`'s divisor `max(duration - 1, 1)` (since /repo b1aea695; before, it was
+`duration - 1`, see `rampSamplesOld?`). -/
+def rampDen (d : Nat) : Nat := max (d - 1) 1
+
 /-- `RampWaveform._samples`: `clip(slope * arange(d) + start, *sorted([start, stop]))`
-with `slope = (stop - start) / (d - 1)`.  `none` when `d = 1` (0/0 or x/0). -/
+with `slope = (stop - start) / max(d - 1, 1)`.  The divisor is never zero, so this is always
+`some`; the `Option` is kept because the division is written with the guarded `divQ?`. -/
 def rampSamples? (d : Nat) (a b : Rat) : Option (List Rat) :=
+  (divQ? (b - a) (rampDen d : Rat)).map fun slope =>
+    (List.range d).map fun (i : Nat) => clip (slope * (i : Rat) + a) (min a b) (max a b)
+
+/-- The formula of `RampWaveform._samples` **before** /repo commit b1aea695 (finding F6.1):
+`slope = (stop - start) / (d - 1)`; `none` when `d = 1` (0/0 or x/0). -/
+def rampSamplesOld? (d : Nat) (a b : Rat) : Option (List Rat) :=
   (divQ? (b - a) ((d : Rat) - 1)).map fun slope =>
     (List.range d).map fun (i : Nat) => clip (slope * (i : Rat) + a) (min a b) (max a b)
 
 /-- `BlackmanWaveform._samples` / `KaiserWaveform._samples`:
-`norm * (area / sum(norm) * 1e3)`.  `none` when the window sums to zero. -/
+`norm * (area / sum(norm) * 1e3)`.  `none` when the window sums to zero.  (Since /repo e02d4356 a
+Blackman window of at most two samples is `ones(d)`; before, `np.blackman(2) = [0, 0]` was
+normalised — finding F6.2.  The window is an oracle parameter here either way.) -/
 def windowSamples? (norm : List Rat) (area : Rat) : Option (List Rat) :=
   (divQ? area norm.sum).map fun q => norm.map (· * (q * 1000))
 
@@ -255,9 +268,16 @@ def padEdgeLeft : List Rat → Option (List Rat)
   | [] => none
   | x :: xs => some (x :: x :: xs)
 
-/-- General branch of `Pulse.ArbitraryPhase`: `detuning = pad(-diff(phase) * 1e3, (1,0), "edge")`. -/
-def arbDetuning? (phi : List Rat) : Option (List Rat) :=
+/-- General branch of `Pulse.ArbitraryPhase` **before** /repo c5791488 (finding F6.3):
+`detuning = pad(-diff(phase) * 1e3, (1,0), "edge")` whatever the duration. -/
+def arbDetuningOld? (phi : List Rat) : Option (List Rat) :=
   padEdgeLeft ((diffs phi).map fun x => -x * 1000)
+
+/-- General branch of `Pulse.ArbitraryPhase`: a one-sample phase waveform takes the constant
+branch (`ConstantWaveform(1, 0.0)`), otherwise
+`detuning = pad(-diff(phase) * 1e3, (1,0), "edge")`. -/
+def arbDetuning? (phi : List Rat) : Option (List Rat) :=
+  if phi.length = 1 then some [0] else padEdgeLeft ((diffs phi).map fun x => -x * 1000)
 
 /-- `phase_c = phase[0] + detuning[0] * 1e-3` (before `% 2π`). -/
 def arbPhaseC (phi det : List Rat) : Rat := phi.headD 0 + det.headD 0 / 1000
@@ -274,9 +294,11 @@ def phaseModulation (phaseC : Rat) (det : List Rat) : List Rat :=
 /-- Constant-phase branch: `ConstantWaveform(d, 0.0)`, offset `phase[0] + 0`. -/
 def arbConst (d : Nat) (v : Rat) : Rat × List Rat := (v + 0 / 1000, List.replicate d 0)
 
-/-- Ramp branch: `ConstantWaveform(d, -slope * 1e3)`, offset `start + detuning[0] * 1e-3`. -/
+/-- Ramp branch: `ConstantWaveform(d, -slope * 1e3)`, offset `start + detuning[0] * 1e-3`; a
+one-sample ramp takes the constant branch. -/
 def arbRamp? (d : Nat) (a b : Rat) : Option (Rat × List Rat) :=
-  (divQ? (b - a) ((d : Rat) - 1)).map fun slope =>
+  if d = 1 then some (arbConst 1 a)      -- `phase.duration == 1` is tested first (since /repo c5791488)
+  else (divQ? (b - a) (rampDen d : Rat)).map fun slope =>
     (a + (-slope * 1000) / 1000, List.replicate d (-slope * 1000))
 
 end Wave
